@@ -137,6 +137,8 @@ def _judge(args):
     tool = cfg["tool"]
     kind = case_kind(case)
     exp_log = tm.noneify(case["log"], cfg["par"].get("dflt") == "none") if tool in tm.NONE_TOOLS else case["log"]
+    if tool in tm.NONE_POS_TOOLS and cfg["data"] and len(cfg["data"][0]) >= 2:
+        exp_log = tm.none_at(exp_log)
     if cfg["par"].get("inone"):      # reduce(..., initial=None): the expected log with the initial object spelled None
         exp_log = tm.noneify_nodes(case["log"], ("initial",))
     out = {"viol": [], "mach": [], "n": {}}
@@ -424,6 +426,8 @@ def record_random(args):
     L = tm.load_lib()
     o = tm.execute(case, L, susp=rnd.choice([0, 1]))
     log = tm.lazy_projection(o.log) + ([{"ev": "close"}] if o.ending == "close" else [])
+    if case["cfg"]["tool"] in tm.NONE_POS_TOOLS and case["cfg"]["data"] and len(case["cfg"]["data"][0]) >= 2:
+        log = tm.none_back(log, case["cfg"]["data"][0][1])
     if case["cfg"]["tool"] in tm.NONE_TOOLS:     # None items back to what the spec calls them
         from itertools import count  # noqa: PLC0415
         ctr = {}
